@@ -802,7 +802,7 @@ Proof.
     assert (Hp : inU (o, tcx)).
     { apply todo_ok_cons in HT. destruct HT as [HT1 _]. apply HT1. left. reflexivity. }
     assert (Hpop_w : forall j m, W ((pend', j, m) :: rest) + 1 <= W td).
-    { intros j m. unfold td. rewrite !W_cons. pose proof (set_w_tail (o, tcx) pend' idx mark j m). unfold pend in *. lia. }
+    { intros j m. unfold td. rewrite !W_cons. pose proof (set_w_tail (o, tcx) pend' idx mark j m). unfold pset, pend in *. lia. }
     assert (Hpop_phi : forall j m, Phi ((pend', j, m) :: rest) ex fl + 1 <= Phi td ex fl).
     { intros j m. specialize (Hpop_w j m). unfold Phi. lia. }
     assert (Hpop_sz : forall j m, todo_size ((pend', j, m) :: rest) < f).
@@ -849,7 +849,7 @@ Proof.
         set (ex' := rollback ex mark) in *. set (fl' := (o, a) :: fl) in *.
         assert (HPf : forall td', W td' <= W td -> Phi td' ex' fl' + (W td - W td') <= Phi td ex fl).
         { intros td' Hw. destruct (Nat.lt_ge_cases mark (len ex)) as [Hl|Hl].
-          - pose proof (Phi_fail_new td td' ex ex' fl (o, a) F5 (F6 Hl) Hw). unfold fl'. lia.
+          - pose proof (Phi_fail_new td td' ex ex' fl (o, a) F5 (F6 Hl) Hw) as HH. unfold fl'. unfold pset, pend in *. lia.
           - unfold ex'. rewrite rollback_all by exact Hl. apply Phi_fail_old. exact Hw. }
         apply todo_ok_cons in HT. destruct HT as [HT1 HT2].
         destruct (Nat.ltb idx (len alts)) eqn:Elt.
@@ -857,7 +857,7 @@ Proof.
            destruct (nth_error alts idx) as [c|] eqn:En; [|apply nth_error_None in En; unfold len in *; lia].
            eexists _, _. split; [reflexivity|]. unfold gn_post.
            pose proof (W_alt_step o alts p i pend' idx mark rest ltac:(lia) Elt) as HA.
-           specialize (HPf (((o, CRep (TDisj alts) p i) :: pend', S idx, mark) :: rest)).
+           assert (HPf' := HPf (((o, CRep (TDisj alts) p i) :: pend', S idx, mark) :: rest) ltac:(unfold td; unfold pset, pend in *; lia)).
            assert (inU (o, c)).
            { destruct Hp as [Ho Hc]. split; [exact Ho|]. simpl.
              apply (UC_kids tc c0 (CRep (TDisj alts) p i)); [exact Hc|]. simpl. eapply nth_error_In; eauto. }
@@ -870,7 +870,7 @@ Proof.
            split.
            { intros _ q Hq _. cbn [fst snd] in Hq. unfold cur_alt in Hq. simpl in Hq.
              rewrite Nat.sub_0_r in Hq. rewrite En in Hq. congruence. }
-           split; [discriminate|]. unfold td in *. unfold pend in *. lia.
+           split; [discriminate|]. unfold td in *. unfold pset, pend in *. lia.
         -- (* no alternative is left *)
            apply Hunw.
            ++ split; [apply todo_ok_cons; split; [intros q Hq; apply HT1; right; exact Hq | exact HT2]|].
@@ -882,8 +882,8 @@ Proof.
               ** simpl in E. subst td'. intros Hi. simpl in Hi. lia.
               ** simpl in E. injection E as _ E2. eapply stk_lt_top; [exact F4 | lia | exact E2].
            ++ apply Hpop_sz.
-           ++ specialize (HPf ((pend', 0, mark) :: rest)). specialize (Hpop_w 0 mark). lia.
-           ++ specialize (HPf ((pend', 0, mark) :: rest)). specialize (Hpop_w 0 mark). lia.
+           ++ specialize (Hpop_w 0 mark). assert (HPf' := HPf ((pend', 0, mark) :: rest) ltac:(lia)). lia.
+           ++ specialize (Hpop_w 0 mark). assert (HPf' := HPf ((pend', 0, mark) :: rest) ltac:(lia)). lia.
       * (* the disjunct in progress has matched *)
         apply Hcont; [eapply Inv_pop_reset; exact HI | discriminate | apply Hpop_sz | |];
           specialize (Hpop_phi 0 mark); lia.
@@ -901,7 +901,404 @@ Proof.
            split; [assumption|]. split; [apply Inv_open with (mark := mark); exact HI|].
            split.
            { intros _ q Hq _. cbn [fst snd] in Hq. unfold cur_alt in Hq. simpl in Hq. congruence. }
-           split; [discriminate|]. unfold Phi, td in *. unfold pend in *. lia.
+           split; [discriminate|]. unfold Phi, td in *. unfold pset, pend in *. lia.
 Qed.
 
+
+(* ---------- pushing work ---------- *)
+Lemma K_pos : 3 <= K.
+Proof. unfold K, bound_K. lia. Qed.
+Lemma WP_2K : 2 * K <= WP.
+Proof. unfold WP, bound_push. fold K. nia. Qed.
+Lemma WP_push : 1 + K * (FO + FC) <= WP.
+Proof. unfold WP, bound_push. fold K. nia. Qed.
+
+Lemma lt_top_cons_idx0 ex set m td : lt_top ex ((set, 0, m) :: td).
+Proof. intros Hi. simpl in Hi. lia. Qed.
+
+(* a check has been examined: the trail grows *)
+Lemma Inv_examine p td ex fl : Inv td ex fl -> hand_ok p td ex -> ~ In p ex -> ~ In p fl ->
+  Inv td (p :: ex) fl /\ lt_top (p :: ex) td.
+Proof.
+  intros (A & B & C & D) H Hex Hfl.
+  assert (HL : lt_top (p :: ex) td).
+  { destruct td as [|e rest]; [exact I|]. destruct D as [[D1 _] _]. intros Hi. destruct (D1 Hi) as [E1 _].
+    unfold len in *. simpl. lia. }
+  split; [|exact HL].
+  split; [exact A|]. split; [constructor; assumption|].
+  split; [intros e [He|He]; [subst e; exact Hfl | apply C; exact He]|].
+  destruct td as [|e rest]; [split; exact I|]. destruct D as [[D1 D2] T].
+  assert (Hlen : len (p :: ex) = S (len ex)) by reflexivity.
+  split; [split|].
+  - intros Hi. destruct (D1 Hi) as [E1 E2]. split; [lia|]. intros q Hq Hl.
+    destruct (Nat.eq_dec (snd e) (len ex)) as [Heq|Hne].
+    + rewrite Heq. rewrite trail_at_new. f_equal. apply (H Hi q Hq). lia.
+    + rewrite trail_at_cons by lia. apply E2; [exact Hq|lia].
+  - eapply stk_ok_weaken; [|apply stk_ok_cons; [apply sb_le | exact D2]]. apply sb_mono. lia.
+  - intros Hi Hf. specialize (T Hi Hf). lia.
+Qed.
+
+(* a new set is pushed on a stack whose disjuncts in progress were all taken up before the end of the trail *)
+Lemma Inv_push set td ex fl : Inv td ex fl -> lt_top ex td -> (forall p, In p set -> inU p) ->
+  Inv ((set, 0, 0) :: td) ex fl.
+Proof.
+  intros (A & B & C & D) HL Hs. split; [apply todo_ok_cons; split; [exact Hs | exact A]|].
+  split; [exact B|]. split; [exact C|]. split; [split|].
+  - intros Hi. simpl in Hi. lia.
+  - unfold sb. cbn [fst snd Nat.eqb]. destruct td as [|e rest]; [exact I|]. destruct D as [[D1 D2] T]. split.
+    + intros Hi. destruct (D1 Hi) as [E1 E2]. split; [apply HL; exact Hi | exact E2].
+    + exact D2.
+  - intros Hi. simpl in Hi. lia.
+Qed.
+
+Lemma Inv_return td ex fl q td' : Inv td ex fl -> lt_top ex td -> inU q -> is_disj q = false ->
+  return_check td q = Some td' -> Inv td' ex fl /\ lt_top ex td' /\ W td' <= W td + WP.
+Proof.
+  intros (A & B & C & D) HL Hq Hd E. destruct td as [|[[pending i] m] rest]; simpl in E; [discriminate|].
+  inversion E. subst td'. apply todo_ok_cons in A. destruct A as [A1 A2]. destruct D as [[D1 D2] T].
+  split; [|split].
+  - split; [apply todo_ok_cons; split; [intros x [Hx|Hx]; [subst; exact Hq | apply A1; exact Hx] | exact A2]|].
+    split; [exact B|]. split; [exact C|]. split; [split|].
+    + intros Hi. destruct (D1 Hi) as [E1 E2]. split; [exact E1|]. intros x Hx Hl. apply E2; [|exact Hl].
+      cbn [fst snd] in *. rewrite cur_alt_skip in Hx by exact Hd. exact Hx.
+    + exact D2.
+    + intros Hi _. apply HL. exact Hi.
+  - exact HL.
+  - rewrite !W_cons. pose proof WP_2K. pose proof (wt_le q Hq). pose proof (front_w_wt q i).
+    unfold set_w. cbn [fst snd]. destruct pending as [|p' r]; [simpl; lia|].
+    pose proof (front_w_pos p' i). pose proof (front_w_wt p' i).
+    assert (inU p') by (apply A1; left; reflexivity). pose proof (wt_le p' H4). simpl. lia.
+Qed.
+
+Lemma push_checks_spec ex td cs fl : Inv td ex fl -> lt_top ex td -> (forall p, In p cs -> inU p) ->
+  len cs <= FO + FC ->
+  Inv (push_checks ex td cs) ex fl /\ lt_top ex (push_checks ex td cs) /\ W (push_checks ex td cs) <= W td + WP.
+Proof.
+  intros HI HL Hcs Hl. unfold push_checks.
+  destruct (filter (fun p => negb (have_examined ex p)) cs) as [|p r] eqn:E; [split; [exact HI|split; [exact HL|lia]]|].
+  assert (Hs : forall q, In q (p :: r) -> inU q).
+  { intros q Hq. apply Hcs. rewrite <- E in Hq. apply filter_In in Hq. apply Hq. }
+  split; [apply Inv_push; assumption|]. split; [apply lt_top_cons_idx0|].
+  rewrite W_cons. unfold set_w. cbn [fst snd].
+  pose proof (front_w_wt p 0). pose proof (sumw_le (p :: r) Hs) as HS. simpl in HS.
+  pose proof (filter_len_le (fun p => negb (have_examined ex p)) cs) as FL. rewrite E in FL.
+  pose proof WP_push. assert (K * len (p :: r) <= K * (FO + FC)) by (apply Nat.mul_le_mono_l; lia).
+  unfold len in *. simpl in *. lia.
+Qed.
+
+Lemma push_disjunct_spec ex td q fl : Inv td ex fl -> lt_top ex td -> inU q ->
+  Inv (push_disjunct td q) ex fl /\ lt_top ex (push_disjunct td q) /\ W (push_disjunct td q) <= W td + WP.
+Proof.
+  intros HI HL Hq. unfold push_disjunct.
+  split; [apply Inv_push; [exact HI | exact HL | intros x [Hx|[]]; subst; exact Hq]|].
+  split; [apply lt_top_cons_idx0|].
+  rewrite W_cons. unfold set_w. cbn [fst snd]. pose proof (front_w_wt q 0). pose proof (wt_le q Hq).
+  pose proof WP_2K. pose proof K_pos. simpl. lia.
+Qed.
+
+(* ---------- the children pushed by each arm are in the universe ---------- *)
+Lemma dict_get_in {V} (d : list (bytes * V)) k v : dict_get d k = Some v -> In v (List.map snd d).
+Proof.
+  induction d as [|[k' v'] r IH]; simpl; [discriminate|].
+  destruct (bytes_eqb k k'); intros E; [inversion E; left; reflexivity | right; apply IH; exact E].
+Qed.
+
+Lemma dict_ents_spec d ents e cs : dict_ents tc d ents = Some (e, cs) ->
+  (forall p, In p cs -> In (fst p) (List.map snd d) /\ In (snd p) (List.map ent_chk ents)) /\ len cs <= len ents.
+Proof.
+  revert e cs. induction ents as [|[k c opt] r IH]; intros e cs E; simpl in E.
+  - inversion E. split; [intros p []|simpl; lia].
+  - destruct (resolve tc c) as [rc|]; [|discriminate].
+    assert (Hrec : dict_ents tc d r = Some (e, cs) ->
+                   (forall p, In p cs -> In (fst p) (List.map snd d) /\ In (snd p) (List.map ent_chk (DEnt k c opt :: r))) /\
+                   len cs <= len (DEnt k c opt :: r)).
+    { intros E'. destruct (IH _ _ E') as [A B]. split; [|simpl in *; unfold len in *; simpl; lia].
+      intros p Hp. destruct (A p Hp). split; [assumption|right; assumption]. }
+    destruct (dict_get d k) as [v|] eqn:G.
+    + destruct opt.
+      * destruct (r_ty rc); try (apply Hrec; exact E);
+          (destruct (dict_ents tc d r) as [[e' cs']|] eqn:E'; [|discriminate]; inversion E; subst;
+           destruct (IH _ _ eq_refl) as [A B]; split; [|unfold len in *; simpl; lia];
+           intros q [Hq|Hq]; [subst q; simpl; split; [eapply dict_get_in; eauto | left; reflexivity]
+                             | destruct (A q Hq); split; [assumption | right; assumption]]).
+      * destruct (r_ty rc); try (apply Hrec; exact E);
+          (destruct (dict_ents tc d r) as [[e' cs']|] eqn:E'; [|discriminate]; inversion E; subst;
+           destruct (IH _ _ eq_refl) as [A B]; split; [|unfold len in *; simpl; lia];
+           intros q [Hq|Hq]; [subst q; simpl; split; [eapply dict_get_in; eauto | left; reflexivity]
+                             | destruct (A q Hq); split; [assumption | right; assumption]]).
+      * inversion E. split; [intros p []|simpl; lia].
+    + destruct opt; try (apply Hrec; exact E). inversion E. split; [intros p []|simpl; lia].
+Qed.
+
+Lemma stream_ents_spec d ents e cs : stream_ents tc d ents = Some (e, cs) ->
+  (forall p, In p cs -> In (fst p) (List.map snd d) /\ In (snd p) (List.map ent_chk ents)) /\ len cs <= len ents.
+Proof.
+  revert e cs. induction ents as [|[k c opt] r IH]; intros e cs E; simpl in E.
+  - inversion E. split; [intros p []|simpl; lia].
+  - destruct (resolve tc c) as [rc|]; [|discriminate].
+    destruct (stream_ents tc d r) as [[e' cs']|] eqn:E'; [|discriminate].
+    destruct (IH _ _ eq_refl) as [A B].
+    assert (Hsame : (forall p, In p cs' -> In (fst p) (List.map snd d) /\ In (snd p) (List.map ent_chk (DEnt k c opt :: r))) /\
+                    len cs' <= len (DEnt k c opt :: r)).
+    { split; [|unfold len in *; simpl; lia]. intros p Hp. destruct (A p Hp). split; [assumption|right; assumption]. }
+    destruct (dict_get d k) as [v|] eqn:G.
+    + destruct opt; try (inversion E; subst; exact Hsame);
+        (destruct (r_ty rc); try (inversion E; subst; exact Hsame);
+         (inversion E; subst; split; [|unfold len in *; simpl; lia];
+          intros q [Hq|Hq]; [subst q; simpl; split; [eapply dict_get_in; eauto | left; reflexivity]
+                            | destruct (A q Hq); split; [assumption | right; assumption]])).
+    + destruct opt; inversion E; subst; exact Hsame.
+Qed.
+
+Lemma star_ents_spec d spec sc sopt sty e cs : star_ents d spec sc sopt sty = (e, cs) ->
+  (forall p, In p cs -> In (fst p) (List.map snd d) /\ snd p = sc) /\ len cs <= len d.
+Proof.
+  revert e cs. induction d as [|[k v] r IH]; intros e cs E; simpl in E.
+  - inversion E. split; [intros p []|simpl; lia].
+  - assert (Hrec : star_ents r spec sc sopt sty = (e, cs) ->
+                   (forall p, In p cs -> In (fst p) (List.map snd ((k, v) :: r)) /\ snd p = sc) /\ len cs <= len ((k, v) :: r)).
+    { intros E'. destruct (IH _ _ E') as [A B]. split; [|unfold len in *; simpl; lia].
+      intros p Hp. destruct (A p Hp). split; [right; assumption|assumption]. }
+    destruct (existsb (bytes_eqb k) spec); [apply Hrec; exact E|].
+    destruct sopt.
+    + destruct sty; try (apply Hrec; exact E);
+        (destruct (star_ents r spec sc KReq _) as [e' cs'] eqn:E'; inversion E; subst;
+         destruct (IH _ _ eq_refl) as [A B]; split; [|unfold len in *; simpl; lia];
+         intros q [Hq|Hq]; [subst q; simpl; split; [left; reflexivity | reflexivity]
+                           | destruct (A q Hq); split; [right; assumption | assumption]]).
+    + destruct sty; try (apply Hrec; exact E);
+        (destruct (star_ents r spec sc KOpt _) as [e' cs'] eqn:E'; inversion E; subst;
+         destruct (IH _ _ eq_refl) as [A B]; split; [|unfold len in *; simpl; lia];
+         intros q [Hq|Hq]; [subst q; simpl; split; [left; reflexivity | reflexivity]
+                           | destruct (A q Hq); split; [right; assumption | assumption]]).
+    + inversion E. split; [intros p []|simpl; lia].
+Qed.
+
+
+Lemma in_combine_both {X Y} (l : list X) (m : list Y) x y : In (x, y) (combine l m) -> In x l /\ In y m.
+Proof. intros H. split; [eapply in_combine_l; eauto | eapply in_combine_r; eauto]. Qed.
+
+
+
+(* ---------- one iteration of the work loop ---------- *)
+(* what every arm of the match delivers, starting from the todo [td1] returned by get_next and the
+   trail [ex2] after state.examine *)
+Definition arm_ok (td1 : todo) (ex2 fl1 : list pend) (k1 : nat) (res : stepres * nat) : Prop :=
+  snd res = k1 /\
+  match fst res with
+  | SCont td' ex' fl' _ => ex' = ex2 /\ fl' = fl1 /\ Inv td' ex2 fl1 /\ lt_top ex2 td' /\ W td' <= W td1 + WP
+  | SStop o => o <> Stuck
+  end.
+
+Lemma step_arms td1 ex2 fl1 k1 o tcx c :
+  Inv td1 ex2 fl1 -> lt_top ex2 td1 -> inU (o, tcx) -> resolve tc tcx = Some c ->
+  (forall alts, r_ty c <> TDisj alts) ->
+  arm_ok td1 ex2 fl1 k1 (step_arm opq oc tc td1 ex2 fl1 k1 o tcx c).
+Proof.
+  intros HI HL [Ho Hc] Hres Hnd. unfold step_arm.
+  set (cont := fun td' e => (SCont td' ex2 fl1 e, k1)). set (stop := fun x => (SStop x, k1)). simpl in Ho, Hc.
+  destruct (resolve_in tc c0 tcx c Hc Hres) as (Hrc & Hal & Hkids).
+  destruct c as [[t p] i]. cbn [r_ty r_pred r_ind fst snd] in *.
+  assert (Hcont : forall e, arm_ok td1 ex2 fl1 k1 (cont td1 e)).
+  { intros e. split; [reflexivity|]. simpl. split; [reflexivity|]. split; [reflexivity|].
+    split; [exact HI|]. split; [exact HL|lia]. }
+  assert (Hstop : forall x, x <> Stuck -> arm_ok td1 ex2 fl1 k1 (stop x)) by (intros x Hx; split; [reflexivity|exact Hx]).
+  assert (Hpush : forall cs e, (forall q, In q cs -> inU q) -> len cs <= FO + FC ->
+            arm_ok td1 ex2 fl1 k1 (cont (push_checks ex2 td1 cs) e)).
+  { intros cs e A B. destruct (push_checks_spec ex2 td1 cs fl1 HI HL A B) as (P1 & P2 & P3).
+    split; [reflexivity|]. simpl. auto. }
+  destruct o as [ | b | z | n d | s | s | s | n g | l | d | d content].
+  (* the reference *)
+  8:{ assert (Hret : arm_ok td1 ex2 fl1 k1
+                  (match return_check td1 (ref_value oc n g, allow_indirect (t, p, i)) with
+                   | Some td' => cont td' None
+                   | None => stop Panicked
+                   end)).
+      { destruct (return_check td1 (ref_value oc n g, allow_indirect (t, p, i))) as [td'|] eqn:E; [|apply Hstop; discriminate].
+        assert (Hq : inU (ref_value oc n g, allow_indirect (t, p, i))) by (split; [apply ref_value_in | exact Hal]).
+        assert (Hd : is_disj (ref_value oc n g, allow_indirect (t, p, i)) = false).
+        { unfold is_disj, allow_indirect. cbn [snd r_ty fst]. destruct t; try reflexivity. exfalso. eapply Hnd. reflexivity. }
+        destruct (Inv_return td1 ex2 fl1 _ td' HI HL Hq Hd E) as (R1 & R2 & R3).
+        split; [reflexivity|]. simpl. auto. }
+      destruct t; destruct i; try apply Hcont; exact Hret. }
+  (* direct objects *)
+  all: destruct i; try apply Hcont.
+  all: destruct t as [ | p' | e sz | es | ents star | ents | alts]; try apply Hcont;
+       try (apply Hstop; discriminate);
+       try (match goal with |- context [prim_match ?o ?p] => destruct (prim_match o p) end; apply Hcont).
+  (* arrays: Array *)
+  1,3: (destruct (match sz with Some n => negb (Nat.eqb (len l) n) | None => false end); [apply Hcont|];
+        destruct (resolve tc e) as [re|]; [|apply Hstop; discriminate];
+        destruct (match r_ty re with TAny => no_attrs re | _ => false end); [apply Hcont|];
+        destruct (check_pred opq (OArr l) p); [apply Hcont|];
+        apply Hpush;
+        [ intros q Hq; apply in_map_iff in Hq; destruct Hq as (x & Eq & Hx); subst q; split;
+          [ apply (UO_kids oc o0 (OArr l)); [exact Ho | exact Hx] | apply Hkids; left; reflexivity ]
+        | pose proof (fan_o_le (OArr l) Ho) as L; simpl in L; unfold len, pend in *; rewrite map_length; lia ]).
+  (* arrays: HetArray *)
+  1,2: (destruct (negb (Nat.eqb (len l) (len es))); [apply Hcont|];
+        destruct (check_pred opq (OArr l) p); [apply Hcont|];
+        apply Hpush;
+        [ intros [x y] Hq; apply in_combine_both in Hq; destruct Hq as [Hx Hy]; split;
+          [ apply (UO_kids oc o0 (OArr l)); [exact Ho | exact Hx] | apply Hkids; exact Hy ]
+        | pose proof (fan_c_le _ Hrc) as L; simpl in L; unfold len, pend in *; rewrite combine_length; lia ]).
+  (* dictionaries *)
+  1,2: (destruct (check_pred opq (ODict d) p); [apply Hcont|];
+        destruct (dict_ents tc d ents) as [[[e|] cs]|] eqn:DE; [apply Hcont | | apply Hstop; discriminate];
+        destruct (dict_ents_spec d ents None cs DE) as [A B];
+        pose proof (fan_c_le _ Hrc) as LC; pose proof (fan_o_le (ODict d) Ho) as LO;
+        simpl in LC, LO; unfold len, pend in *; rewrite app_length, map_length in LC; rewrite map_length in LO;
+        assert (Hcs : forall q, In q cs -> inU q);
+        [ intros q Hq; destruct (A q Hq) as [A1 A2]; split;
+          [ apply (UO_kids oc o0 (ODict d)); [exact Ho | exact A1]
+          | apply Hkids; simpl; apply in_or_app; left; exact A2 ] |];
+        destruct star as [[sc sopt]|]; [|apply Hpush; [exact Hcs | lia]];
+        destruct (resolve tc sc) as [rs|]; [|apply Hstop; discriminate];
+        destruct (star_ents d (List.map ent_key ents) sc sopt (r_ty rs)) as [[e|] cs2] eqn:SE; [apply Hcont|];
+        destruct (star_ents_spec _ _ _ _ _ _ _ SE) as [A' B'];
+        apply Hpush;
+        [ intros q Hq; apply in_app_or in Hq; destruct Hq as [Hq|Hq]; [apply Hcs; exact Hq|];
+          destruct (A' q Hq) as [A1 A2]; split;
+          [ apply (UO_kids oc o0 (ODict d)); [exact Ho | exact A1]
+          | rewrite A2; apply Hkids; simpl; apply in_or_app; right; left; reflexivity ]
+        | unfold len, pend in *; rewrite app_length; simpl in LC; lia ]).
+  (* streams *)
+  1,2: (destruct (check_pred opq (OStream d content) p); [apply Hcont|];
+        destruct (stream_ents tc d ents) as [[[e|] cs]|] eqn:DE; [apply Hcont | | apply Hstop; discriminate];
+        destruct (stream_ents_spec d ents None cs DE) as [A B];
+        pose proof (fan_c_le _ Hrc) as LC; simpl in LC; unfold len, pend in *; rewrite map_length in LC;
+        apply Hpush;
+        [ intros q Hq; destruct (A q Hq) as [A1 A2]; split;
+          [ apply (UO_kids oc o0 (OStream d content)); [exact Ho | exact A1]
+          | apply Hkids; simpl; exact A2 ]
+        | lia ]).
+Qed.
+
+
+Definition err_inv (err : option tcerr) (td : todo) (ex fl : list pend) : Prop :=
+  match err with Some _ => err_ok td ex fl | None => True end.
+
+Lemma step_spec td ex fl err k res k' : Inv td ex fl -> err_inv err td ex fl ->
+  step opq oc tc td ex fl err k = (res, k') ->
+  match res with
+  | SCont td' ex' fl' err' =>
+    Inv td' ex' fl' /\ err_inv err' td' ex' fl' /\ Phi td' ex' fl' + 1 <= Phi td ex fl /\
+    k' + 5 * Phi td' ex' fl' <= k + 5 * Phi td ex fl
+  | SStop o => o <> Stuck /\ k' <= k + 3 * Phi td ex fl + 2
+  end.
+Proof.
+  intros HI HE. unfold step, process.
+  assert (HE' : is_some err = true -> err_ok td ex fl).
+  { destruct err; [intros _; exact HE | discriminate]. }
+  destruct (get_next_spec (is_some err) (S (todo_size td)) td ex fl (S k) HI HE' (Nat.lt_succ_diag_r _))
+    as (r & k1 & E & P).
+  rewrite E. unfold gn_post in P. destruct r as [[o tcx] td1 ex1 fl1 | | | ].
+  - destruct P as (Hp & HI1 & Hh & Hne & Hphi & Hk).
+    destruct (resolve tc tcx) as [c|] eqn:R.
+    2:{ intros Eq. inversion Eq. subst. split; [discriminate|lia]. }
+    destruct (have_examined fl1 (o, tcx)) eqn:HF.
+    { (* an alternative that failed before *)
+      intros Eq. inversion Eq. subst. split; [exact HI1|]. split; [|split; lia].
+      apply have_examined_in in HF. unfold err_inv, err_ok. destruct td1 as [|e rest]; [exact I|].
+      intros Hi q Hq Hl. rewrite <- (Hh Hi q Hq Hl). exact HF. }
+    destruct (have_examined ex1 (o, tcx)) eqn:HX.
+    { intros Eq. inversion Eq. subst. split; [exact HI1|]. split; [exact I|]. split; lia. }
+    apply have_examined_not_in in HF. apply have_examined_not_in in HX.
+    destruct (Inv_examine (o, tcx) td1 ex1 fl1 HI1 Hh HX HF) as [HI2 HL2].
+    pose proof (uncov_cons_lt (o, tcx) ex1 Hp HX) as HU.
+    pose proof (mul_step _ _ M1 HU) as HM.
+    assert (Hfin : forall td' ex' fl' err', ex' = (o, tcx) :: ex1 -> fl' = fl1 -> Inv td' ((o, tcx) :: ex1) fl1 ->
+              lt_top ((o, tcx) :: ex1) td' -> W td' <= W td1 + WP ->
+              Inv td' ex' fl' /\ err_inv err' td' ex' fl' /\ Phi td' ex' fl' + 1 <= Phi td ex fl /\
+              k1 + 5 * Phi td' ex' fl' <= k + 5 * Phi td ex fl).
+    { intros td' ex' fl' err' -> -> A B C. split; [exact A|]. split.
+      - destruct err'; [apply lt_top_err_ok; exact B | exact I].
+      - unfold Phi in *. unfold M1 in *. unfold pset, pend in *. lia. }
+    destruct (r_ty c) as [ | p' | e sz | es | ents star | ents | alts] eqn:Ety.
+    7:{ (* a named or nested disjunct *)
+      intros Eq. inversion Eq. subst.
+      destruct Hp as [Ho Hc]. destruct (resolve_in tc c0 tcx c Hc R) as (Hrc & _ & _).
+      destruct (push_disjunct_spec ((o, tcx) :: ex1) td1 (o, rep_chk c) fl1 HI2 HL2 (conj Ho Hrc)) as (Q1 & Q2 & Q3).
+      apply Hfin; auto. }
+    all: (pose proof (step_arms td1 ((o, tcx) :: ex1) fl1 k1 o tcx c HI2 HL2 Hp R) as HA;
+          intros Eq; rewrite Eq in HA;
+          destruct HA as [Hk' Hm]; [intros alts; rewrite Ety; discriminate|];
+          simpl in Hk', Hm; subst k';
+          destruct res as [td' ex' fl' err'|x]; [|split; [exact Hm|lia]];
+          destruct Hm as (Hex & Hfl & Hok' & Hlt' & Hw'); apply Hfin; assumption).
+  - intros Eq. destruct err; inversion Eq; subst; (split; [discriminate|lia]).
+  - intros Eq. destruct err; inversion Eq; subst; (split; [discriminate|lia]).
+  - intros Eq. inversion Eq. subst. split; [discriminate|lia].
+Qed.
+
+(* ---------- the loop ---------- *)
+Lemma run_terminates : forall n td ex fl err k, Inv td ex fl -> err_inv err td ex fl -> Phi td ex fl < n ->
+  fst (run opq oc tc n td ex fl err k) <> Stuck /\
+  snd (run opq oc tc n td ex fl err k) <= k + 5 * Phi td ex fl + 2.
+Proof.
+  induction n as [|n IH]; intros td ex fl err k HI HE Hn; [lia|].
+  simpl. destruct (step opq oc tc td ex fl err k) as [res k'] eqn:E.
+  pose proof (step_spec td ex fl err k res k' HI HE E) as S.
+  destruct res as [td' ex' fl' err'|x].
+  - destruct S as (HI' & HE' & Hphi & Hk). destruct (IH td' ex' fl' err' k' HI' HE' ltac:(lia)) as [A B].
+    split; [exact A|lia].
+  - destruct S as [A B]. simpl. split; [exact A|]. lia.
+Qed.
+
+Lemma Inv_init o c : inU (o, c) -> Inv [([(o, c)], 0, 0)] [] [].
+Proof.
+  intros H. split; [constructor; [intros p [Hp|[]]; subst; exact H | constructor]|].
+  split; [constructor|]. split; [intros e []|]. split; [split; [|exact I]|].
+  - intros Hi. simpl in Hi. lia.
+  - intros Hi. simpl in Hi. lia.
+Qed.
+
+Lemma Phi_init o c : inU (o, c) -> Phi [([(o, c)], 0, 0)] [] [] < step_bound oc tc o0 c0.
+Proof.
+  intros H. unfold Phi, step_bound. fold UO UC FO FC. fold K WP.
+  assert (HP : PP = len UO * len UC) by (unfold PP, UP, len, pend; rewrite prod_length; reflexivity).
+  pose proof (uncov_le []) as HU.
+  assert (W [([(o, c)], 0, 0)] <= 1 + K).
+  { simpl. unfold set_w. cbn [fst snd]. pose proof (front_w_wt (o, c) 0). pose proof (wt_le (o, c) H). simpl. lia. }
+  assert (uncov [] * M2 <= PP * M2) by (apply Nat.mul_le_mono_r; exact HU).
+  assert (uncov [] * M1 <= PP * M1) by (apply Nat.mul_le_mono_r; exact HU).
+  rewrite <- HP. unfold M2, M1 in *. unfold K in *. nia.
+Qed.
 End Term.
+
+(* ---------- the theorems ---------- *)
+Theorem run_root_terminates opq oc tc o c n :
+  step_bound oc tc o c <= n ->
+  fst (run opq oc tc n [([(o, c)], 0, 0)] [] [] None 0) <> Stuck /\
+  snd (run opq oc tc n [([(o, c)], 0, 0)] [] [] None 0) <= 5 * step_bound oc tc o c + 2.
+Proof.
+  intros Hn.
+  assert (Hin : inU oc tc o c (o, c)) by (split; [apply UO_root | apply UC_root]).
+  pose proof (Phi_init oc tc o c o c Hin) as HP.
+  destruct (run_terminates opq oc tc o c _ _ [] [] None 0 (Inv_init oc tc o c o c Hin) I HP) as [A B].
+  rewrite (run_mono opq oc tc _ n _ _ _ _ _ A Hn). split; [exact A|lia].
+Qed.
+
+Theorem check_fuel_terminates opq oc tc o c r n :
+  resolve tc c = Some r -> step_bound oc tc o (norm_chk (rep_chk r)) <= n ->
+  fst (check_fuel opq oc tc n o c) <> Stuck /\
+  snd (check_fuel opq oc tc n o c) <= 5 * step_bound oc tc o (norm_chk (rep_chk r)) + 2.
+Proof. intros R Hn. unfold check_fuel. rewrite R. apply run_root_terminates. exact Hn. Qed.
+
+(* the verdict does not depend on the fuel once the bound is reached: running again gives the same answer *)
+Theorem check_fuel_deterministic opq oc tc o c r n m :
+  resolve tc c = Some r -> step_bound oc tc o (norm_chk (rep_chk r)) <= n -> n <= m ->
+  check_fuel opq oc tc m o c = check_fuel opq oc tc n o c.
+Proof.
+  intros R Hn Hm. apply check_fuel_mono; [|exact Hm].
+  apply (check_fuel_terminates opq oc tc o c r n R Hn).
+Qed.
+
+Theorem check_terminates opq oc tc o c r :
+  resolve tc c = Some r ->
+  fst (check opq oc tc o c) <> Stuck /\
+  snd (check opq oc tc o c) <= 5 * step_bound oc tc o (norm_chk (rep_chk r)) + 2.
+Proof.
+  intros R. unfold check. rewrite R. rewrite check_N_fuel, step_bound_N_nat.
+  apply (check_fuel_terminates opq oc tc o c r _ R). lia.
+Qed.
